@@ -46,6 +46,8 @@ def extract_draws(trace):
         fn = st.get("sourceLocation", {}).get("function", "")
         if not fn.startswith("kani::any_raw_") or st.get("lhs") != "var_0":
             continue
+        if st.get("hidden"):
+            continue   # the declaration's default initialisation of var_0, not the nondet draw (present in unsliced traces)
         v = st.get("value", {})
         b = v.get("binary")
         if b is None:
@@ -88,7 +90,9 @@ def hunt(crate, r, ctx):
             why.append("%s hunt build failed: %s" % (label, str(e)[-300:]))
             continue
         query, covers, allowed = core.classify(props, h)
-        cmd = ["cbmc"] + core.CBMC_FLAGS + list(h.extra_cbmc) + core.unwind_flags(h) + \
+        # no --slice-formula here: the slicer removes the nondet draws the failing property does not depend on from the trace,
+        # and the native playback needs EVERY draw, in order (a short list ends in a panic inside Kani's playback library)
+        cmd = ["cbmc"] + [f for f in core.CBMC_FLAGS if f != "--slice-formula"] + list(h.extra_cbmc) + core.unwind_flags(h) + \
               ["--sat-solver", "cadical", "--stop-on-fail", "--trace", "--json-ui"]
         for p in query:
             cmd += ["--property", p["name"]]
@@ -120,9 +124,20 @@ def hunt(crate, r, ctx):
         ok, rout = native_replay(rep_dir, memcheck=bool(MEMORY_CLASS.search(failed[0])))
         shutil.rmtree(jd, ignore_errors=True)
         if ok:
-            return {"verdict": "violation", "replay": rep_dir, "failed": failed, "mode": label}
+            rel = None
+            if os.environ.get("VK_RELEASE_REPLAY", "1") != "0":
+                rel, _ = native_replay(rep_dir, memcheck=False, release_like=True)
+                try:
+                    rj = os.path.join(rep_dir, "replay.json")
+                    jd_ = json.load(open(rj))
+                    jd_["release_like_profile"] = {"flags": RELEASE_LIKE, "fails_too": rel}
+                    json.dump(jd_, open(rj, "w"), indent=1)
+                except Exception:
+                    pass
+            return {"verdict": "violation", "replay": rep_dir, "failed": failed, "mode": label, "release_like_fails": rel}
         why.append("%s counterexample (%s) did not reproduce natively: %s" % (label, failed[0][:120], core._tail(rout, 4).replace("\n", " | ")))
-        shutil.rmtree(rep_dir, ignore_errors=True)
+        if not os.environ.get("VK_KEEP"):
+            shutil.rmtree(rep_dir, ignore_errors=True)
     return {"verdict": "inconclusive", "why": "; ".join(why)}
 
 
@@ -145,21 +160,87 @@ def save_replay(pid, r, hc, lib, label, failed, vals):
     return d
 
 
+PLAYBACK_MISMATCH = re.compile(r"panicked at [^\n]*concrete_playback\.rs")
 MEMORY_CLASS = re.compile(r"deallocated dynamic object|dead object|pointer invalid|pointer outside object bounds|pointer NULL")
 
 
-def native_replay(rep_dir, timeout=900, memcheck=False):
+RELEASE_LIKE = {"OPT_LEVEL": "3", "DEBUG_ASSERTIONS": "false", "OVERFLOW_CHECKS": "false"}
+
+
+def native_replay(rep_dir, timeout=900, memcheck=False, release_like=False, fresh_target=False):
     """Run the playback test natively (dev profile, the one Kani models). True = the test fails (reproduced).
+    release_like=True: the same test with the release profile's semantic flags (opt-level 3, no debug assertions, no overflow
+    checks) - informational only: the verdict is always the dev-profile one, because that is what the solver decided.
     memcheck=True (CBMC reported a memory-safety failure): a natively PASSING test is re-run under valgrind memcheck,
     because a use-after-free usually reads stale but still mapped memory; an invalid read/write reported by memcheck
     counts as reproduced."""
     lock = os.path.join(core.REPO, "Cargo.lock")
     if os.path.exists(lock):
         shutil.copy(lock, os.path.join(rep_dir, "Cargo.lock"))
-    env = dict(core.ENV, CARGO_TARGET_DIR=os.path.join(core.WORK, "target_replay"))
+    # a replay always runs against the CURRENT tree: point the rrtk dependency at it (the directory may have been written
+    # while checking another checkout), and rebuild renamed second copies of the sources (C19) in a scratch directory
+    toml_path = os.path.join(rep_dir, "Cargo.toml")
+    toml_orig = open(toml_path).read()
+    scratch = []
+
+    def _redirect(m):
+        name, path = m.group(1), m.group(2)
+        if name == "rrtk":
+            return '%s = { path = "%s"' % (name, core.REPO)
+        if name.startswith("rrtk_"):
+            base = "/tmp/vk_replay_%s_%d" % (name, os.getpid())
+            shutil.rmtree(base, ignore_errors=True)
+            os.makedirs(base)
+            shutil.copytree(os.path.join(core.REPO, "src"), os.path.join(base, "src"))
+            t = open(os.path.join(core.REPO, "Cargo.toml")).read()
+            open(os.path.join(base, "Cargo.toml"), "w").write(re.sub(r'(?m)^name = "rrtk"', 'name = "%s"' % name, t, count=1))
+            scratch.append(base)
+            return '%s = { path = "%s"' % (name, base)
+        return m.group(0)
+    toml_new = re.sub(r'(?m)^(\w+) = \{ path = "([^"]+)"', _redirect, toml_orig)
+    if toml_new != toml_orig:
+        open(toml_path, "w").write(toml_new)
+    # Kani's playback build does not key its output directory by the crate's path: with a shared target directory, a replay
+    # crate whose sources are OLDER than the last build of another replay crate would be taken as fresh and the other crate's
+    # test binary would run. So: always touch the source (forces the rebuild of the replay crate), and for `--replay` of a
+    # stored directory use a private target directory (the rrtk dependency may point at a different checkout than last time).
+    try:
+        os.utime(os.path.join(rep_dir, "src", "lib.rs"), None)
+    except OSError:
+        pass
+    tdir = os.path.join(core.WORK, "target_replay_rel" if release_like else "target_replay")
+    if fresh_target:
+        tdir += "_cmd_%d" % os.getpid()
+        shutil.rmtree(tdir, ignore_errors=True)
+    env = dict(core.ENV, CARGO_TARGET_DIR=tdir)
+    if release_like:
+        for prof in ("DEV", "TEST"):
+            for k, v in RELEASE_LIKE.items():
+                env["CARGO_PROFILE_%s_%s" % (prof, k)] = v
     rc, out, _ = core.run(["cargo", "kani", "playback", "-Z", "concrete-playback", "--", "kani_concrete_playback"],
                           timeout=timeout, cwd=rep_dir, limit=False, env=env)
     reproduced = rc != 0 and "test result: FAILED" in out and "kani_concrete_playback" in out
+    # a panic inside Kani's playback library means the recorded draws do not drive THIS build down the recorded path
+    # (the harness draws a different number of values): that is "not reproduced", never a violation
+    # an obligation of ours (vk:TAG) is reproduced only by a native panic that is itself a failed obligation (vk:...): e.g. in a must-panic harness
+    # the correct tree also ends in a panic (rrtk's own), which is the expected behaviour and not the recorded failure
+    want = None
+    try:
+        fc = json.load(open(os.path.join(rep_dir, "replay.json"))).get("failed_checks", [])
+        m = re.search(r"vk:([A-Za-z0-9_.\-]+)", fc[0]) if fc else None
+        want = m.group(1) if m else None
+    except Exception:
+        pass
+    if reproduced and want is not None:
+        msgs = re.findall(r"panicked at [^\n]*\n([^\n]*)", out)
+        # (any obligation of the harness counts: natively the first failing one in execution order fires, which need not be
+        # the one the solver happened to report)
+        if not any(mm.strip().startswith("vk:") for mm in msgs):
+            reproduced = False
+            out += "\n[vk] the native run fails, but not in an obligation of the harness (recorded: vk:%s): not reproduced\n" % want
+    if reproduced and PLAYBACK_MISMATCH.search(out):
+        reproduced = False
+        out += "\n[vk] playback values do not fit this build's path (panic inside kani's concrete_playback): not reproduced\n"
     if not reproduced and memcheck and "test result: ok" in out:
         bins = sorted(glob.glob(os.path.join(env["CARGO_TARGET_DIR"], "**", "vk_replay-*"), recursive=True), key=os.path.getmtime)
         bins = [b for b in bins if os.access(b, os.X_OK) and not b.endswith(".d")]
@@ -171,6 +252,20 @@ def native_replay(rep_dir, timeout=900, memcheck=False):
     try:
         os.remove(os.path.join(rep_dir, "Cargo.lock"))
     except OSError:
+        pass
+    for b in scratch:
+        shutil.rmtree(b, ignore_errors=True)
+    if fresh_target:
+        shutil.rmtree(tdir, ignore_errors=True)
+    if scratch:
+        open(toml_path, "w").write(toml_orig)
+    if not reproduced and "test result:" not in out:
+        return None, out   # the playback crate did not build / run at all: no verdict
+    try:
+        hn = json.load(open(os.path.join(rep_dir, "replay.json"))).get("harness")
+        if hn and ("kani_concrete_playback_" + hn) not in out:
+            return None, out + "\n[vk] the test that ran is not this replay's (kani_concrete_playback_%s): no verdict\n" % hn
+    except (OSError, ValueError):
         pass
     return reproduced, out
 
@@ -184,10 +279,16 @@ def replay_cmd(pid, path):
         memc = any(MEMORY_CLASS.search(f) for f in json.load(open(os.path.join(path, "replay.json"))).get("failed_checks", []))
     except Exception:
         pass
-    ok, out = native_replay(path, memcheck=memc)
+    ok, out = native_replay(path, memcheck=memc, fresh_target=True)
     print(core._tail(out, 25))
     if ok:
+        rel, _ = native_replay(path, memcheck=False, release_like=True, fresh_target=True)
+        print("[replay] dev profile (the one Kani models): FAILS; release-like profile (opt-level 3, no debug assertions, no overflow checks): %s"
+              % ("FAILS too" if rel else ("does not fail" if rel is False else "did not build/run")))
         print("VIOLATION property=%s replay=%s" % (pid, path))
         return 1
+    if ok is None:
+        print("INCONCLUSIVE: the replay crate did not build or run against the current tree")
+        return 2
     print("replay does not fail on the current tree")
     return 0
